@@ -219,7 +219,12 @@ class pCN(Sampler):
     def single_update(self, x_t, loglike_eval_t):
         # propose state
         xi = self.prior.sample(1).flatten()   # sample from the prior
-        x_star = np.sqrt(1-self.scale**2)*x_t + self.scale*xi   # pCN proposal
+        # pCN proposal (reversible w.r.t. the prior N(m, C) also for a non-zero prior mean m;
+        # priors that do not expose a fixed mean, e.g. user-defined ones, are assumed to have zero mean)
+        m = getattr(self.prior, 'mean', None)
+        if m is None or callable(m):
+            m = 0
+        x_star = m + np.sqrt(1-self.scale**2)*(x_t - m) + self.scale*(xi - m)
 
         # evaluate target
         loglike_eval_star =  self._loglikelihood(x_star) 
